@@ -274,13 +274,56 @@ def never_expands_rule(ctx, mpq, pid):
             ctx.bad(R_exp, "compress|extra-return", comp.where, "more than one non-copy return: %s" % prefixed, "an unguarded return can expand the data")
 
 
+def compressor_limits_rule(ctx, mpq, pid):
+    """compress() never emits a block its own reader refuses under the default limits: the verdict of the reader's validator, asked
+    about (payload length without the method byte, original length) — what the reader measures — feeds the raw fallback"""
+    R = ctx.rule("%s.compressor-respects-reader-limits" % pid, "compress consults validate_decompression_operation with default limits and stores raw when it would reject", floor=2)
+    fns = mpq.fns
+    comp = fns.get(C + "compress::compress")
+    vname = "wow_mpq::security::validate_decompression_operation"
+    ds = fns.get(C + "decompress::decompress_secure")
+    for f, who in ((comp, "compress"), (ds, "decompress_secure")):
+        if f is None:
+            ctx.bad(R, "%s|missing" % who, "-", "function not found", "anchor gone")
+            continue
+        calls = [t for _, t in mirg.iter_calls(f) if ncallee(t) == vname]
+        if not calls:
+            ctx.bad(R, "%s|no-limit-check" % who, f.where, "%s does not call validate_decompression_operation" % who,
+                    "the compressor can emit blocks the decompressor refuses under its default limits" if who == "compress" else "limits are not enforced on read")
+            continue
+        if who == "compress":
+            body = f.hir["body"]
+            inline = make_inliner(body)
+            lets = {l["pat"]["name"]: hirq.render(l.get("init")) for l in hirq.find(body, "let") if l["pat"].get("k") == "bind" and l.get("init") is not None}
+            carrier = [k for k, v in lets.items() if "validate_decompression_operation" in v]
+            in_guard = any(any(re.search(r"\b%s\b" % re.escape(c), hirq.render(n["c"])) for c in carrier) and "to_vec" in hirq.render(n) for n in hirq.find(body, "if"))
+            default_limits = any((c.get("fn") or "").endswith("SecurityLimits as core::default::Default>::default") or "default" in (c.get("fn") or "") and "SecurityLimits" in (c.get("fn") or "") for c in hirq.calls(body))
+            # sibling agreement on what is measured: the reader validates the payload *without* the method byte
+            vcall = next((c for c in hirq.calls(body) if (c.get("fn") or "").endswith("security::validate_decompression_operation")), None)
+            a0 = hirq.render(inline(vcall["args"][0])) if vcall is not None else ""
+            a1 = hirq.render(inline(vcall["args"][1])) if vcall is not None else ""
+            packed = [k for k, v in lets.items() if re.search(r"compress_internal\(", v)]
+            p0 = next(iter(hirq.pat_binds(f.hir["params"][0])), "data")
+            args_ok = any(re.fullmatch(r"\(?%s\.len\(\)( as _)?\)?" % re.escape(k), a0) for k in packed) and re.fullmatch(r"\(?%s\.len\(\)( as _)?\)?" % re.escape(p0), a1) is not None
+            if in_guard and default_limits and args_ok:
+                ctx.ok(R, {"fn": who, "verdict_local": carrier, "feeds_raw_fallback": True, "validator_args": [a0, a1]})
+            elif in_guard and default_limits:
+                ctx.bad(R, "compress|validator-args", f.where, "pre-check validates (%s, %s); the reader validates (payload length without method byte, original length)" % (a0, a1),
+                        "compressor and decompressor measure the ratio on different byte counts: blocks sitting on the ratio limit are emitted and then rejected")
+            else:
+                ctx.bad(R, "compress|limit-result-unused", f.where, "validator verdict %s does not feed the raw-fallback guard (default limits: %s)" % (carrier, default_limits),
+                        "highly compressible input is emitted compressed and then rejected by the reader")
+        else:
+            ctx.ok(R, {"fn": who, "calls_validator": True})
+
+
+
 def run(ctx):
     prog = ctx.prog
     mpq = prog.crate("wow_mpq")
     R_disp = ctx.rule("C03.dispatch-symmetric", "each CompressionMethod variant uses the same algorithm module for compression and decompression", floor=10)
     R_multi = ctx.rule("C03.multi-method-order-reversed", "combined methods: ADPCM stage first on compress / last on decompress; compressor's second-stage set ⊆ decompressor's", floor=2)
     R_val = ctx.rule("C03.decoded-size-validated", "every non-passthrough success path of decompress_with_monitor passes validate_decompression_result", floor=1)
-    R_lim = ctx.rule("C03.compressor-respects-reader-limits", "compress consults validate_decompression_operation with default limits and stores raw when it would reject", floor=2)
 
     partial_io_rule(ctx, [mpq], "C03", scope=re.compile(r"::compression::"), floor=4)
 
@@ -593,39 +636,7 @@ def run(ctx):
             if not found_any:
                 ctx.bad(R_sparse, "sparse|encoder-shape", sp_c.where, "run-length emitters not recognised", "shape changed")
 
-    vname = "wow_mpq::security::validate_decompression_operation"
-    ds = fns.get(C + "decompress::decompress_secure")
-    for f, who in ((comp, "compress"), (ds, "decompress_secure")):
-        if f is None:
-            ctx.bad(R_lim, "%s|missing" % who, "-", "function not found", "anchor gone")
-            continue
-        calls = [t for _, t in mirg.iter_calls(f) if ncallee(t) == vname]
-        if not calls:
-            ctx.bad(R_lim, "%s|no-limit-check" % who, f.where, "%s does not call validate_decompression_operation" % who,
-                    "the compressor can emit blocks the decompressor refuses under its default limits" if who == "compress" else "limits are not enforced on read")
-            continue
-        if who == "compress":
-            body = f.hir["body"]
-            inline = make_inliner(body)
-            lets = {l["pat"]["name"]: hirq.render(l.get("init")) for l in hirq.find(body, "let") if l["pat"].get("k") == "bind" and l.get("init") is not None}
-            carrier = [k for k, v in lets.items() if "validate_decompression_operation" in v]
-            in_guard = any(any(re.search(r"\b%s\b" % re.escape(c), hirq.render(n["c"])) for c in carrier) and "to_vec" in hirq.render(n) for n in hirq.find(body, "if"))
-            default_limits = any((c.get("fn") or "").endswith("SecurityLimits as core::default::Default>::default") or "default" in (c.get("fn") or "") and "SecurityLimits" in (c.get("fn") or "") for c in hirq.calls(body))
-            # sibling agreement on what is measured: the reader validates the payload *without* the method byte
-            vcall = next((c for c in hirq.calls(body) if (c.get("fn") or "").endswith("security::validate_decompression_operation")), None)
-            a0 = hirq.render(inline(vcall["args"][0])) if vcall is not None else ""
-            a1 = hirq.render(inline(vcall["args"][1])) if vcall is not None else ""
-            args_ok = re.fullmatch(r"\(?compressed\.len\(\)( as _)?\)?", a0) is not None and re.fullmatch(r"\(?data\.len\(\)( as _)?\)?", a1) is not None
-            if in_guard and default_limits and args_ok:
-                ctx.ok(R_lim, {"fn": who, "verdict_local": carrier, "feeds_raw_fallback": True, "validator_args": [a0, a1]})
-            elif in_guard and default_limits:
-                ctx.bad(R_lim, "compress|validator-args", f.where, "pre-check validates (%s, %s); the reader validates (payload length without method byte, original length)" % (a0, a1),
-                        "compressor and decompressor measure the ratio on different byte counts: blocks sitting on the ratio limit are emitted and then rejected")
-            else:
-                ctx.bad(R_lim, "compress|limit-result-unused", f.where, "validator verdict %s does not feed the raw-fallback guard (default limits: %s)" % (carrier, default_limits),
-                        "highly compressible input is emitted compressed and then rejected by the reader")
-        else:
-            ctx.ok(R_lim, {"fn": who, "calls_validator": True})
+    compressor_limits_rule(ctx, mpq, "C03")
 
     sparse_decoder_clamp_rule(ctx, mpq, "C03")
 
